@@ -15,6 +15,10 @@ ALLOWED_WRITES = {
 
 
 def run(repo, res):
+    from . import flagsrule
+
+    res.rule("R29.5", "samples are never split: sample status is decided by the NODE_IS_SAMPLE bit or ts.samples(), never by comparing the whole flags word (samples may carry further bits, e.g. tsinfer's historical-sample bit)")
+    flagsrule.run(repo, res, "R29.5")
     res.rule("R29.1", "column completeness: the node table is rebuilt by one set_columns call carrying every node column (flags, time, population, individual, metadata, metadata_offset); the per-row columns are taken from the old table through the same order index")
     res.rule("R29.2", "the split flag is OR-ed into flags exactly at split_nodes; unsplit_node_id is added to the decoded row metadata and encoded through the table's own schema; failure downgrades to a warning")
     res.rule("R29.3", "who-may-write: only edges.{parent,child}, mutations.node, the node columns, sort/build_index/compute_mutation_parents and at most one provenance record; sites, mutation sites/states, edge coordinates and sequence_length are never written")
@@ -92,7 +96,7 @@ def run(repo, res):
     e2_rule(repo, res, "R29.4", lambda caller, callee: caller is f, min_sites=2)
 
 
-VARIANTS = [
+VARIANTS = [dict(name="flags-equality-in-split", mod="util", expect="fire", rule="R29.5", old="    node_is_sample = np.bitwise_and(ts.nodes_flags, tskit.NODE_IS_SAMPLE).astype(bool)", new="    node_is_sample = ts.nodes_flags == tskit.NODE_IS_SAMPLE")] + [
     dict(name="individual-column-dropped", mod="util", expect="fire", rule="R29.1", old="        individual=node_table.individual[order],\n", new=""),
     dict(name="population-not-permuted", mod="util", expect="fire", rule="R29.1", old="        population=node_table.population[order],", new="        population=node_table.population[: len(order)],"),
     dict(name="flag-on-all-copies", mod="util", expect="fire", rule="R29.2", old="    flags[split_nodes] |= tsdate.NODE_SPLIT_BY_PREPROCESS", new="    flags[nodes_order] |= tsdate.NODE_SPLIT_BY_PREPROCESS"),
